@@ -590,8 +590,8 @@ def run(ctx):
                 ctx.count("route=%s" % route)
                 ctx.count("post=%s" % post)
         # 3. random tables
-        n_tables = 170 if ctx.quick() else 4000
-        cli_share = 0.12 if ctx.quick() else 0.1
+        n_tables = 300 if ctx.quick() else 6000
+        cli_share = 0.15 if ctx.quick() else 0.1
         for k in range(n_tables):
             spec, route, post, classes = gen_table(rng, ctx.quick())
             chk.recipe = {"kind": "spec", "spec": spec, "route": route, "post": post, "seed": k}
@@ -625,12 +625,21 @@ def replay(ctx, rec):
             chk.recipe = rc
             tags = tuple(t for t in rec.get("tags", []) if t not in ("nan-for-zero", "to_dataframe-sparse",
                                                                        "to_dataframe-dense"))
-            chk.all_api(from_recipe(rc), "replay", tags)
-            run_cli(chk, from_recipe(rc), "replay", tags, random.Random(1))
-            t = from_recipe(rc)
-            inp = input_obs(t)
-            for n, m in [(1, 1), (2, 3), (9, 9), (0, 1)]:
-                chk.head_api(t, inp, "replay", tags, n, m)
+            if rc["kind"] == "empty":
+                # tables without cells: the summaries only (nothing can be printed, the commands refuse them)
+                t = from_recipe(rc)
+                inp = input_obs(t)
+                chk.queries(t, inp, "replay", tags)
+                chk.nonzero(t, inp, "replay", tags)
+                chk.stats(t, inp, "replay", tags)
+                chk.frames(t, inp, "replay", tags)
+            else:
+                chk.all_api(from_recipe(rc), "replay", tags)
+                run_cli(chk, from_recipe(rc), "replay", tags, random.Random(1))
+                t = from_recipe(rc)
+                inp = input_obs(t)
+                for n, m in [(1, 1), (2, 3), (9, 9), (0, 1)]:
+                    chk.head_api(t, inp, "replay", tags, n, m)
         elif case.get("req") is not None:
             chk.ask(case["req"], {"replay": case.get("check")}, rec.get("tags", []))
         else:
